@@ -261,7 +261,7 @@ def run(ctx):
 
     ctx.hyp("c01", S.mapped(900, gen), check, n, shrinker=shrink)
     ctx.hyp("c01-huge", S.mapped(12, gen_huge), check,
-            ctx.scale(60, 640), shrinker=shrink)
+            ctx.scale(24, 640), shrinker=shrink)
 
     # second source: independent pairs (tiny universe / mutants / ring
     # families, unspecified parity excluded) that the brute-force oracle
